@@ -309,6 +309,36 @@ class _Cancelled(BaseException):
     pass
 
 
+def profile_request(calc, strain, history):
+    """step number of the first execution of every distinct cij source line of one complete request (for the cancellation sweep)"""
+    from cij.util import c_
+    from cij.core.tasks import PhononContributionTaskList
+    repo = os.path.realpath(os.environ.get("CIJSIM_REPO", "/repo")) + "/cij/"
+    state = {"n": 0}
+    first = {}
+
+    def local(frame, event, arg):
+        if event == "line":
+            state["n"] += 1
+            key = f"{frame.f_code.co_filename[len(repo):]}:{frame.f_lineno}"
+            if key not in first:
+                first[key] = state["n"]
+        return local
+
+    def glob(frame, event, arg):
+        return local if frame.f_code.co_filename.startswith(repo) else None
+
+    tl = PhononContributionTaskList(calc)
+    sys.settrace(glob)
+    try:
+        tl.resolve(strain, [c_(*a) for a in history])
+        tl.calculate()
+        tl.get_isothermal_results()
+    finally:
+        sys.settrace(None)
+    return first
+
+
 def aborted_request(calc, strain, history, at_line):
     """an earlier request on the same calculator that is cancelled at its k-th cij line event (inside resolve or calculate) and
     abandoned -- process history for the requests that follow.  Returns the source site at which it was cut, or None if it finished first."""
@@ -463,6 +493,31 @@ def run_world(seed, tier, world=None, histories=None, relations=True):
                 if not dev2 <= 1e-9:
                     verdict("O-history", f"adiabatic c{k} depends on the request: deviates from its singleton-request value by {dev2:.3e} x scale", history=h, dev=dev2)
                     break
+    # cancellation sweep: an earlier request cancelled at the FIRST execution of a distinct source line (seeded sample of the lines one full
+    # request runs), then a fresh request that must equal its singleton references
+    swept = 0
+    try:
+        srng = random.Random(seed ^ 0x7F4A7C15)
+        full = [[k] for k in ALL21]
+        sites = profile_request(calc, strain, full)
+        mon.violations = []
+        keys_ = sorted(sites)
+        for site in srng.sample(keys_, min(len(keys_), 12 if tier == "quick" else 60)):
+            aborted_request(calc, strain, full, sites[site])
+            mon.violations = []
+            h = [[k] for k in srng.sample(ALL21, srng.choice([1, 2, 5]))]
+            keys, iso, ad, tl = run_request(calc, strain, h)
+            runs += 1
+            mon.violations = []
+            for key in keys:
+                k = canon(key)
+                if k in solo and not max(_dev(iso[key], solo[k]), _dev(ad[key], solo_ad[k])) / scale <= 1e-9:
+                    verdict("O-history", f"after an earlier request was cancelled at {site}: c{k} deviates from its singleton-request value", history=h, cancelled_at=site)
+                    break
+            swept += 1
+    except Exception as e:
+        verdict("O-complete", f"request after a cancelled one raised {type(e).__name__}: {str(e)[:150]}")
+    mon.violations = []
     # one task-list OBJECT re-used for a sequence of requests with alternating strain fields (a history on one object):
     # every result must equal that of a fresh list given the same (strain, request)
     reuse_checked = 0
@@ -574,7 +629,7 @@ def run_world(seed, tier, world=None, histories=None, relations=True):
         mon.violations = []
     return {"verdicts": verdicts, "runs": runs, "stats": mon.stats, "event_digest": mon.digest(), "n_events": len(mon.events),
             "strain_kind": world.get("strain_kind"), "maxdev": maxdev, "history_sizes": {str(k): v for k, v in sizes.items()},
-            "rel": rel, "aborted_requests": aborted, "reuse_chain_steps": reuse_checked, "interleaved_lists_checked": interleaved_checked, "scale": scale, "wall": time.time() - t0, "n_histories": len(histories), "world_kind": world["kind"],
+            "rel": rel, "aborted_requests": aborted, "cancellation_sweep": swept, "reuse_chain_steps": reuse_checked, "interleaved_lists_checked": interleaved_checked, "scale": scale, "wall": time.time() - t0, "n_histories": len(histories), "world_kind": world["kind"],
             "sample": {"seed": seed, "world_kind": world["kind"], "strain_kind": world.get("strain_kind"), "strain_row0": world["strain"][0], "history": histories[-1]}}
 
 
